@@ -277,19 +277,20 @@ let ocaml_string (s : Model.string) : string =
 let cps_text (l : n list) = String.concat "" (List.map (fun c -> String.make 1 (Char.chr (int_of_n c land 255))) l)
 
 let parse_cfg (s : string) : config =
-  let serial = ref [] and tid = ref [] and cur = ref 978 and amount = ref 2500 and rct = ref 15 and pw = ref 0 and mx = ref 1 in
+  let z = ZA.of_int in
+  let serial = ref [] and tid = ref [] and cur = ref (z 978) and amount = ref (z 2500) and rct = ref (z 15) and pw = ref (z 0) and mx = ref (z 1) in
   List.iter (fun kv ->
     match String.split_on_char '=' kv with
     | ["serial"; v] -> serial := utf8_cps (string_of_bytes_hex v)
     | ["tid"; v] -> tid := utf8_cps v
-    | ["cur"; v] -> cur := int_of_string v
-    | ["amount"; v] -> amount := int_of_string v
-    | ["rct"; v] -> rct := int_of_string v
-    | ["pw"; v] -> pw := int_of_string v
-    | ["max"; v] -> mx := int_of_string v
+    | ["cur"; v] -> cur := ZA.of_string v
+    | ["amount"; v] -> amount := ZA.of_string v
+    | ["rct"; v] -> rct := ZA.of_string v
+    | ["pw"; v] -> pw := ZA.of_string v
+    | ["max"; v] -> mx := ZA.of_string v
     | _ -> failwith ("config " ^ kv)) (String.split_on_char ';' s);
-  { c_serial = !serial; c_terminal_id = !tid; c_currency = n_of_int !cur; c_amount = n_of_z (ZA.of_int !amount);
-    c_read_card_timeout = n_of_int !rct; c_password = n_of_int !pw; c_max = n_of_int !mx }
+  { c_serial = !serial; c_terminal_id = !tid; c_currency = n_of_z !cur; c_amount = n_of_z !amount;
+    c_read_card_timeout = n_of_z !rct; c_password = n_of_z !pw; c_max = n_of_z !mx }
 
 let parse_ops (s : string) : op list =
   if s = "-" then [] else
@@ -331,6 +332,7 @@ let err_text = function
       "Err:Msg:" ^ show_text ("Unhandled error: " ^ msg)
   | EUnknownCardType -> "Err:Msg:" ^ show_text "Unknown card type"
   | EParseTid -> "Err:Msg:" ^ show_text "invalid digit found in string"
+  | ETidTooLong -> "Err:Msg:" ^ show_text "The terminal id has more than eight digits"
 
 let opt_n f = function Some x -> f x | None -> "-"
 let opres_text = function
@@ -351,7 +353,9 @@ let event_text = function
   | EDrop (id, t) -> Printf.sprintf "D%s@%s" (string_of_n id) (string_of_n t)
 
 let client_s cfg ops scripts =
-  let (((tnew, rs), _), w) = run_history (parse_cfg cfg) (parse_ops ops) (parse_scripts scripts) in
+  match feig_history (parse_cfg cfg) (parse_ops ops) (parse_scripts scripts) with
+  | None -> "new:Err:Msg:" ^ show_text "Configuration value out of range"       (* Feig::new returned an error: no client *)
+  | Some (((tnew, rs), _), w) ->
   let results = ("new@" ^ string_of_n tnew) ::
     List.map (fun ((r, t0), dt) -> Printf.sprintf "%s@%s+%s" (opres_text r) (string_of_n t0) (string_of_n dt)) rs in
   Printf.sprintf "%s || %s || T=%s" (String.concat ";" results)
